@@ -10,7 +10,9 @@ TEXT_POOL = ["", "Y", "N", "y", "1", "12", "-7", "+3", "007", "1_0", " 1", "abc"
              "é€", "<", "&", "&amp;lt;", "&amp;amp;", "x&amp;nbsp;y", "&amp;quot;", "&lt;&amp;gt;", "1.5", "1,5", "TYPE1", "NONE", "١٢", "1e3", "--1", "-", "+",
              # numbers no binary float can hold, limits of digit counts, texts a lenient number parser would take
              "9007199254740993", "-9007199254740993", "12345678901234567890", "999999999999999999", "1000000000000000000", "100.00", "1e16", "0x10", "1 000",
-             "ab  cd", "a\tb", "x" * 32, "x" * 33, "a b ", " a"]
+             "ab  cd", "a\tb", "x" * 32, "x" * 33, "a b ", " a",
+             # ampersands that start no OFX entity (HTML would read some of them as character references)
+             "good&times2024", "tom&micro", "4111&lt1111", "R&#38D", "&#38;", "&#x26;", "&copy;", "&amp", "&quot;", "&apos;"]
 
 
 def text_sampler(rng):
@@ -294,3 +296,18 @@ CONTRACTS += [
              args=[subagg(Types.ListAggregate, STMTTRN), AggArg("value", LEDGERBAL, lambda: _agg_samples()[0])], call=meth("unconvert"),
              raises=[(TypeError, "True", "must")], props=["C10"]),
 ]
+
+# whole numbers that arrive as another numeric type (Decimal, float, Fraction) take Integer.convert's default arm: the
+# declared digit limit holds for them exactly as for ints and texts (C04: maximum integer digits, keyword route)
+import decimal as _decimal, fractions as _fractions
+WHOLE_NUMBERS = [_decimal.Decimal(10) ** k + d for k in (1, 3, 6, 9) for d in (-1, 0)] + [float(10 ** k + d) for k in (1, 3, 6, 9) for d in (-1, 0)] + \
+                [-(_decimal.Decimal(10) ** k) for k in (1, 3, 6)] + [_fractions.Fraction(10 ** 6, 1), _decimal.Decimal("1E+6"), _decimal.Decimal("7"), 7.0]
+CONTRACTS.append(
+    Contract("ofxtools.Types:Integer.convert",
+             args=[inst(Types.Integer, required=REQ, length=INTLEN), OneOfArg("value", WHOLE_NUMBERS)], call=meth("convert"),
+             ensures=[("value", "result == int(value) and type(result) is int"),
+                      ("within-limit", "self.length is None or abs(result) < 10 ** self.length")],
+             raises=[(OFXSpecError, "self.length is not None and abs(int(value)) >= 10 ** self.length", "must")],
+             native_only=True, samples=600,
+             notes="whole numbers given as Decimal / float / Fraction (default dispatch arm)",
+             props=["C10", "C04"]))
